@@ -213,7 +213,7 @@ type profile struct {
 
 var allActs = []string{"equivocate", "badparent", "staleqc", "inflate", "dupsigner", "relabel", "subquorum",
 	"wrongblock", "genesisview", "futuretimeout", "badtimeoutsig", "dupvote", "multivote", "zerovote", "unknownvote",
-	"strayvote", "replay", "liefetch", "silent", "staleTC", "swapids", "nosig", "sameview", "aggreplay", "forgevote", "forgetc", "forgecontrib", "aggtwin", "aggattest", "aggforge", "roguekey", "payloadeq", "qceq", "aggswap", "aggstale", "spoofproposer", "dupbatch", "zeroview", "anoncontrib", "lockless", "noqctimeout", "genesissig", "stalechain", "stalechain", "stalechain", "fhshide", "onevalid", "onevalid", "agglone", "agglone"}
+	"strayvote", "replay", "liefetch", "silent", "staleTC", "swapids", "nosig", "sameview", "aggreplay", "forgevote", "forgetc", "forgecontrib", "aggtwin", "aggattest", "aggforge", "roguekey", "payloadeq", "qceq", "aggswap", "aggstale", "spoofproposer", "dupbatch", "zeroview", "anoncontrib", "lockless", "noqctimeout", "genesissig", "stalechain", "stalechain", "stalechain", "fhshide", "onevalid", "onevalid", "agglone", "agglone", "timeoutqc", "timeoutqc", "padbits"}
 
 func profileFor(prop string) profile {
 	pr := profile{byz: 0.6, acts: allActs, faults: 6, leaders: []string{"round-robin", "round-robin", "round-robin", "fixed", "carousel", "reputation", "scripted"}}
@@ -487,6 +487,11 @@ func GenPlan(prop string, seed uint64) *Plan {
 		}
 		p.Knobs["qcorder"] = 1
 	}
+	if (prop == "C10" || prop == "C09" || prop == "C08") && p.Crypto == "bls12" && len(p.Byz) > 0 && p.knob("roguekey", 0) == 0 && mix(p.Inner, 0x70616462)%2 == 0 {
+		// a Byzantine replica whose genuine BLS votes and timeouts carry padded signer bit fields
+		p.Byz[0].Kind, p.Byz[0].Rate = "script", 1.0
+		p.Byz[0].Acts = append([]string{"padbits"}, p.Byz[0].Acts...)
+	}
 	if prop == "C10" && mix(p.Inner, 0x6c61746d)%3 == 0 {
 		// the servers emulate wide-area latencies (an option of the real server; zero delay here)
 		if p.Knobs == nil {
@@ -509,6 +514,13 @@ func GenPlan(prop string, seed uint64) *Plan {
 		if p.EarlyTimer == 0 {
 			p.EarlyTimer = 0.1
 		}
+	}
+	if prop == "C07" && len(p.Byz) > 0 && p.Ruleset != "fasthotstuff" && p.Knobs["aggqc"] != 1 && p.knob("kauri", 0) == 0 && mix(p.Inner, 0x74717163)%4 == 0 {
+		// a vote collector that keeps the certificates it forms to itself (it never proposes) and sends them inside its
+		// own timeouts for the views they certify
+		p.Byz = p.Byz[:1]
+		p.Byz[0].Kind, p.Byz[0].Acts, p.Byz[0].Rate = "script", []string{"timeoutqc", "silent"}, 1.0
+		p.Leader, p.Script = "round-robin", nil
 	}
 	if prop == "C07" && len(p.Byz) > 0 && (p.Ruleset == "fasthotstuff" || p.Knobs["aggqc"] == 1) && mix(p.Inner, 0x61747465)%2 == 0 {
 		// a Byzantine replica whose timeouts alternately attest the newest genuine QC and nothing, on lossy links with
